@@ -72,4 +72,21 @@ def extract():
     if len(opt) != 1 or not isinstance(opt[0], int) or opt[0] < 0:
         raise OmenExtractError("Optimizer construction not as expected: %r" % opt)
     C["omen_optimizer_max_length"] = opt[0]
+    # is guessing_info/omen_guess_number ever removed from the save config?  (as coded: never)
+    cleared = False
+    for rel in ("lib_guesser/cracking_session.py", "pcfg_guesser.py", "lib_guesser/pcfg_grammar.py"):
+        for n in ast.walk(_parse(rel)):
+            if isinstance(n, ast.Call) and isinstance(n.func, ast.Attribute) and n.func.attr == "remove_option":
+                vals = [a.value for a in n.args if isinstance(a, ast.Constant)]
+                if "omen_guess_number" in vals:
+                    cleared = True
+    sets = 0
+    for n in ast.walk(_parse("lib_guesser/cracking_session.py")):
+        if isinstance(n, ast.Call) and isinstance(n.func, ast.Attribute) and n.func.attr == "set":
+            vals = [a.value for a in n.args if isinstance(a, ast.Constant)]
+            if "omen_guess_number" in vals:
+                sets += 1
+    if sets != 1:
+        raise OmenExtractError("expected exactly one save_config.set(..., 'omen_guess_number', ...) in cracking_session.py")
+    C["omen_number_cleared"] = cleared
     return C
